@@ -773,44 +773,48 @@ Proof.
 Qed.
 
 (* in every environment, for EVERY history (restarts, removal of the directory, re-creation by the provision
-   deadline included): whatever can be demanded there (mode always, owner when chown can succeed) holds at
-   every creation of a KEY file inside the key directory *)
-Theorem creates_in_restricted_dir : forall v predir co h,
-  creates_restricted co (init_dir predir) (sys_trace v predir co h) = true.
+   deadline included) and EVERY initial directory (absent, or present with any owner and mode): whatever can be
+   demanded there (mode always, owner when chown can succeed) holds at every creation of a KEY file inside it *)
+Theorem creates_in_restricted_dir : forall v predir co h d0,
+  dir_matches predir d0 ->
+  creates_restricted co d0 (sys_trace v predir co h) = true.
 Proof.
-  intros v predir co h. unfold sys_trace, run_all.
+  intros v predir co h d0 [P _]. unfold sys_trace, run_all.
   destruct (boot [] predir co) as [[st0 o0] s0] eqn:Eb. destruct (run_from v co st0 h) as [o s] eqn:Er. simpl.
   destruct (boot_trace _ _ _ _ _ _ Eb) as [-> D]. rewrite creates_restricted_app.
-  rewrite (no_key_create co (init_dir predir) _ (acl_prefix_no_create co predir)). simpl.
+  rewrite (no_key_create co d0 _ (acl_prefix_no_create co predir)). simpl.
   eapply run_from_dir; [|exact Er].
   split; [rewrite D; discriminate | intros _].
-  assert (P : predir = true -> init_dir predir <> None) by (intros ->; discriminate).
-  pose proof (restricted_after_acl co predir (init_dir predir) P) as R.
-  destruct (fold_left sys_step ((if predir then []%list else [Mkdir]) ++ acl_tr co) (init_dir predir)) as [[c0 m0]|]; [discriminate|].
+  pose proof (restricted_after_acl co predir d0 P) as R.
+  destruct (fold_left sys_step ((if predir then []%list else [Mkdir]) ++ acl_tr co) d0) as [[c0 m0]|]; [discriminate|].
   destruct co; discriminate.
 Qed.
 
-Lemma at_create : forall v predir co h pre post,
-  sys_trace v predir co h = pre ++ Create FKeyFile :: post -> restricted_in co (dir_after predir pre) = true.
+Lemma at_create : forall v predir co h d0 pre post,
+  dir_matches predir d0 ->
+  sys_trace v predir co h = pre ++ Create FKeyFile :: post -> restricted_in co (dir_after d0 pre) = true.
 Proof.
-  intros v predir co h pre post H. pose proof (creates_in_restricted_dir v predir co h) as R. rewrite H in R.
+  intros v predir co h d0 pre post Hd H. pose proof (creates_in_restricted_dir v predir co h d0 Hd) as R. rewrite H in R.
   rewrite creates_restricted_app in R. apply andb_true_iff in R. destruct R as [_ R].
   simpl in R. apply andb_true_iff in R. destruct R as [R _]. exact R.
 Qed.
 
-(* Prop forms.  Whatever the environment: the mode is 0o700 at every creation of a key file *)
-Theorem dir_mode_restricted_at_create : forall v predir co h pre post,
-  sys_trace v predir co h = pre ++ Create FKeyFile :: post -> mode_restricted (dir_after predir pre) = true.
+(* Prop forms.  Whatever the environment and the initial directory: the mode is 0o700 at every creation of a key file *)
+Theorem dir_mode_restricted_at_create : forall v predir co h d0 pre post,
+  dir_matches predir d0 ->
+  sys_trace v predir co h = pre ++ Create FKeyFile :: post -> mode_restricted (dir_after d0 pre) = true.
 Proof.
-  intros v predir co h pre post H. pose proof (at_create v predir co h pre post H) as R.
+  intros v predir co h d0 pre post Hd H. pose proof (at_create v predir co h d0 pre post Hd H) as R.
   destruct co; simpl in R; auto.
-  destruct (dir_after predir pre) as [[c0 m0]|]; simpl in *; [destruct c0; auto; discriminate | discriminate].
+  destruct (dir_after d0 pre) as [[c0 m0]|]; simpl in *; [destruct c0; auto; discriminate | discriminate].
 Qed.
 
-(* where chown can succeed: root:root and 0o700 (and nothing undid that) *)
-Theorem dir_restricted_at_create : forall v predir h pre post,
-  sys_trace v predir true h = pre ++ Create FKeyFile :: post -> restricted (dir_after predir pre) = true.
-Proof. intros v predir h pre post H. exact (at_create v predir true h pre post H). Qed.
+(* where chown can succeed: owner root:root AND mode 0o700 (and nothing undid that) -- also when the directory
+   pre-existed with mode 0o700 and a foreign owner *)
+Theorem dir_restricted_at_create : forall v predir h d0 pre post,
+  dir_matches predir d0 ->
+  sys_trace v predir true h = pre ++ Create FKeyFile :: post -> restricted (dir_after d0 pre) = true.
+Proof. intros v predir h d0 pre post Hd H. exact (at_create v predir true h d0 pre post Hd H). Qed.
 
 Lemma mode_700_needs_chmod : forall tr d, mode_restricted (fold_left sys_step tr d) = true ->
   mode_restricted d = true \/ In (Chmod 448) tr.
@@ -841,19 +845,31 @@ Proof.
   - discriminate.
 Qed.
 
+Lemma prefix_before : forall (a s pre post : list sys) x,
+  a ++ s = pre ++ x :: post -> ~ In x a -> exists r, pre = a ++ r.
+Proof.
+  induction a as [|y a IH]; intros s pre post x H Hn; [exists pre; reflexivity|].
+  destruct pre as [|z pre]; simpl in H.
+  - inversion H; subst. exfalso; apply Hn; left; reflexivity.
+  - inversion H; subst. destruct (IH _ _ _ _ H2) as [r ->]; [intros X; apply Hn; right; exact X|].
+    exists r; reflexivity.
+Qed.
+
 (* DESIGN form: the chmod 0o700 of the key directory precedes every creation of a key file in it -- in every
-   environment and every history; and so does the chown root:root wherever it can succeed *)
+   environment, history and initial directory (the agent never relies on what it finds: it always chmods, and
+   chowns wherever it can) *)
 Theorem dir_restricted_first : forall v predir co h pre post,
   sys_trace v predir co h = pre ++ Create FKeyFile :: post ->
   In (Chmod 448) pre /\ (co = true -> In (Chown 0 0) pre).
 Proof.
-  intros v predir co h pre post H. split.
-  - pose proof (dir_mode_restricted_at_create v predir co h pre post H) as M. unfold dir_after in M.
-    destruct (mode_700_needs_chmod _ _ M) as [A|A]; [destruct predir; discriminate | exact A].
-  - intros ->. pose proof (dir_restricted_at_create v predir h pre post H) as R. unfold dir_after in R.
-    assert (M2 : (match fold_left sys_step pre (init_dir predir) with Some (true, _) => true | _ => false end) = true).
-    { destruct (fold_left sys_step pre (init_dir predir)) as [[c0 m0]|]; simpl in *; [destruct c0; auto; discriminate | discriminate]. }
-    destruct (owner_needs_chown _ _ M2) as [A|A]; [destruct predir; discriminate | exact A].
+  intros v predir co h pre post H. unfold sys_trace, run_all in H.
+  destruct (boot [] predir co) as [[st0 o0] s0] eqn:Eb. destruct (run_from v co st0 h) as [o s] eqn:Er. simpl in H.
+  destruct (boot_trace _ _ _ _ _ _ Eb) as [-> D].
+  destruct (prefix_before _ _ _ _ _ H) as [r ->].
+  - intros X. exact (acl_prefix_no_create co predir _ X eq_refl).
+  - split.
+    + apply in_or_app; left. apply in_or_app; right. unfold acl_tr. apply in_or_app; right; left; reflexivity.
+    + intros ->. apply in_or_app; left. apply in_or_app; right. left; reflexivity.
 Qed.
 
 (* F12 (repaired by fd6287b): the history on which the code used to store a key in a directory the provision
